@@ -394,6 +394,8 @@ class SsbGraphMinimizer:
                     # Common end label
                     if len(v.out_edges()) < 2:
                         continue
+                    # The graph was changed above (and by the passes before): results cached for it are stale.
+                    find_first_common_next_vertex_in_edges__clear_cache(g)
                     result = find_first_common_next_vertex_in_edges(g, v.out_edges())
                     if result is not None:
                         end_vertex = result[0].target_vertex
